@@ -65,6 +65,7 @@ Proof.
     repeat (apply andb_prop in H; destruct H as [H ?]);
     f_equal; auto using binop_eqb_eq.
   - now apply String.eqb_eq.
+  - now apply String.eqb_eq.
   - now apply eqb_prop.
 Qed.
 
@@ -233,6 +234,7 @@ Lemma sem_ext : forall f r1 r2,
   forall i, sem f r1 i = sem f r2 i.
 Proof.
   induction f; simpl vars; intros r1 r2 H; try (intros; reflexivity).
+  - intros. simpl. apply H. simpl. auto.
   - intros. simpl. apply H. simpl. auto.
   - intros. simpl. now rewrite (IHf r1 r2 H).
   - intros. simpl. rewrite (IHf1 r1 r2), (IHf2 r1 r2); auto;
@@ -524,6 +526,8 @@ Proof.
     try discriminate.
   - (* FVar *) simpl in H. injection H as <- <-. split; [now apply sspec_refl|].
     split; auto.
+  - (* FAtom *) simpl in H. injection H as <- <-. split; [now apply sspec_refl|].
+    split; auto.
   - (* FConst *) simpl in H. injection H as <- <-. split; [now apply sspec_refl|].
     split; auto.
   - (* FNot *) simpl in H. destruct (tr true unt f T) as [a T1] eqn:E1.
@@ -754,6 +758,7 @@ Theorem sem_holds : forall f rho,
   past_only f = true -> forall i, sem f rho i = true <-> holds f rho i.
 Proof.
   induction f; simpl past_only; intros rho PO; try discriminate.
+  - intros i. simpl. tauto.
   - intros i. simpl. tauto.
   - intros i. simpl. tauto.
   - intros i. simpl. rewrite <- (IHf rho PO i).
